@@ -112,6 +112,18 @@ def meta_i2s(ctx, count, length, nt, bad, seed_off=0):
     return out
 
 
+def meta_many(ctx, count, bad, nt=308):
+    """One table with more than 256 registered types (const-generic family), recorded by the harness
+    as a directed history and validated by MetaTrace with NT = nt (borrow-table probes projected away)."""
+    out = ctx.fresh("many", "ndjson")
+    st = run_bin(ctx, "meta", ["many", "--out", out, "--seed", ctx.seed * 1000 + 7, "--count", count, "--nt", nt,
+                               "--bad", ",".join(str(b) for b in bad)], features=FEATURES)
+    ctx.cov["impl_runs"].append({"kind": "impl->spec directed history over %d types in ONE table" % nt, **st, "bad": list(bad)})
+    ctx.cov["traces_validated_against_impl"] += st["histories"]
+    meta_validate(ctx, out, nt, bad, "many-types")
+    return out
+
+
 def check_C17(ctx):
     if ctx.quick():
         meta_mc(ctx, "SpecF", consts(3, [3], [1], 2, 1), MC_INVS, "free-q")
@@ -121,6 +133,7 @@ def check_C17(ctx):
                     simulate=("num=40", 41))
         meta_s2i(ctx, r["replay"], 4, [3, 4], "sim-q", p_keep=0.1, keep=40, dedupe=True)
         meta_i2s(ctx, 40, 300, 8, [7, 8])
+        meta_many(ctx, 2, [4, 8])
     else:
         meta_mc(ctx, "SpecF", consts(4, [4], [1], 2, 1), MC_INVS, "free-t1")
         meta_mc(ctx, "SpecF", consts(3, [3], [1], 3, 2), MC_INVS, "free-t2")
@@ -134,6 +147,8 @@ def check_C17(ctx):
         meta_i2s(ctx, 300, 400, 8, [7, 8])
         meta_i2s(ctx, 60, 400, 8, [1, 4, 6], seed_off=1)
         meta_i2s(ctx, 60, 400, 5, [], seed_off=2)
+        meta_many(ctx, 12, [4, 8])
+        meta_many(ctx, 4, [])
     ctx.cov["exhaustive"] = False
     ctx.assumptions += [
         "TLC explores Meta exhaustively only within the stated constants (types, guards, iterators, register-sequence length)",
